@@ -429,6 +429,116 @@ class C15(Prop):
     def extra_checks(self, ctx):
         ctx["coverage"]["config_distribution"] = getattr(self, "_stats", None)
         ctx["coverage"]["summary_window_distribution"] = getattr(self, "_wstats", None)
+        return self.real_clock_engine(ctx)
+
+    # ------------------------------------------------------------------ real-clock engine
+    REGIMES = {0: "no upkeep: nothing maintains quanta's recent time",
+               1: "quanta::Upkeep with a 600 s interval running in the process",
+               2: "quanta::set_recent called once at start-up"}
+    RWINDOWS = [(1, 400), (1, 700), (1, 1000), (2, 400), (2, 500), (3, 400)]
+    RROUND_VALUES = [[1000.0, 42.0], [5.0, 2.5], [7.25, 0.5]]
+
+    @staticmethod
+    def nominal_ops(c):
+        """a real-clock scenario on its nominal time line (ticks = ms): what the model and the specification are run on"""
+        t, ops = 0, []
+        for o in c["ops"]:
+            if o[0] == "S":
+                t += o[1]
+            elif o[0] == "A":
+                ops.append(["A", t, o[1]])
+            else:
+                ops.append(["P", t])
+        return ops
+
+    def gen_real(self, rng, regime):
+        """rounds of (1..3 samples, render at once [, render again]) separated by sleeps of at least 1.3 windows + 100 ms: a sample
+        just recorded is inside the window, everything from earlier rounds is outside; nothing is ever near an edge"""
+        n, dur = rng.pick(self.RWINDOWS)
+        win = n * dur
+        rounds = 3 if win <= 700 and rng.chance(1, 2) else 2
+        ops = []
+        for r in range(rounds):
+            if r:
+                ops.append(["S", (13 * win + 9) // 10 + rng.range(100, 300)])
+            for _ in range(rng.range(1, 3)):
+                ops.append(["A", hx(rng.pick(self.RROUND_VALUES[r]))])
+            ops.append(["P"])
+            if rng.chance(1, 3):
+                ops.append(["P"])
+        return dict(k="W", regime=regime, n=n, dur=dur, ops=ops)
+
+    @staticmethod
+    def timing_ok(c, real_ms):
+        """the run kept to the scenario: every operation of a round happened within a quarter of a bucket of the round's first"""
+        i, first = 0, None
+        for o in c["ops"]:
+            if o[0] == "S":
+                first = None
+                continue
+            if i >= len(real_ms):
+                return False
+            if first is None:
+                first = real_ms[i]
+            if real_ms[i] - first > c["dur"] // 4:
+                return False
+            i += 1
+        return i == len(real_ms)
+
+    def real_clock_engine(self, ctx):
+        """The render-path summary cases once more on the REAL clock (build_recorder(), no clock override, real sleeps): a mock
+        clock cannot tell WHICH of quanta's time sources (now / recent) the code reads.  One process per regime (quanta's recent
+        time is process-global), scenarios of a process side by side.  Judged by the same model and spec_ok on nominal times."""
+        import time
+        from concurrent.futures import ThreadPoolExecutor
+        from . import core
+        t0 = time.time()
+        rng = ctx["rng"].fork()
+        per = 4 if ctx["tier"] == "quick" else 10
+        scen = [self.gen_real(rng, regime) for regime in (0, 1, 2) for _ in range(per)]
+        done, pending, attempts, stalled = {}, list(range(len(scen))), 0, 0
+
+        def run_regime(idx):
+            rc, outs, err = core.run_impl(ctx["binpath"], [self.impl_line(scen[i]) for i in idx], timeout=300)
+            if rc != 0 or len(outs) != len(idx):
+                raise core.MachineryBroken("c15 driver (real clock) failed: rc=%s %s" % (rc, err[-1000:]))
+            return list(zip(idx, outs))
+
+        while pending and attempts < 3:
+            attempts += 1
+            groups = [[i for i in pending if scen[i]["regime"] == r] for r in (0, 1, 2)]
+            with ThreadPoolExecutor(max_workers=3) as ex:
+                res = [x for g in ex.map(run_regime, [g for g in groups if g]) for x in g]
+            pending = []
+            for i, line in res:
+                o = self.parse_out(scen[i], line)
+                if "panic" not in o and not self.timing_ok(scen[i], o["real_ms"]):
+                    stalled += 1            # the machine stalled inside a round: the run says nothing, repeat it
+                    pending.append(i)
+                else:
+                    done[i] = o
+        idx = sorted(done)
+        triples = [(k, self.coq_case(scen[i]), self.coq_out(scen[i], done[i])) for k, i in enumerate(idx)]
+        res = core.run_model(self.pid, triples, exec_mod=self.exec_mod, shard=self.shard, tag="real") if triples else {}
+        ctx["coverage"]["real_clock_engine"] = dict(
+            regimes={self.REGIMES[r]: dict(scenarios=sum(1 for i in idx if scen[i]["regime"] == r),
+                                           renders=sum(1 for i in idx if scen[i]["regime"] == r for o in scen[i]["ops"] if o[0] == "P"),
+                                           sleeps=sum(1 for i in idx if scen[i]["regime"] == r for o in scen[i]["ops"] if o[0] == "S"))
+                     for r in (0, 1, 2)},
+            windows_ms=sorted({scen[i]["n"] * scen[i]["dur"] for i in idx}), process_rounds=attempts, repeated_because_stalled=stalled,
+            inconclusive_after_3_runs=len(pending), wall_s=round(time.time() - t0, 2),
+            sample=dict(case=scen[idx[0]], impl_out=done[idx[0]]) if idx else None)
+        bad = [k for k in range(len(idx)) if not res[k][1]]
+        dis = [k for k in range(len(idx)) if not res[k][0]]
+        for kind, ks, what, extra in (
+                ("realclock-spec", bad, "on the REAL clock (regime: %s) the rendered summary violates the property: _count/_sum do not cover all samples, "
+                 "or the quantiles ignore a sample recorded just before the render / include samples older than 1.3 windows", {}),
+                ("realclock-corr", dis, "real-clock render observations (regime: %s) disagree with the Coq model run on the nominal times",
+                 dict(no_failing_input=True, broken="correspondence C15/Exec.v run_case vs harness c15 (real clock)"))):
+            if ks:
+                i = idx[ks[0]]
+                return [(kind, what % self.REGIMES[scen[i]["regime"]],
+                         dict(case=scen[i], impl_out=done[i], nominal_ops=self.nominal_ops(scen[i]), failing_scenarios=len(ks), **extra))]
         return []
 
     # ------------------------------------------------------------------ implementation side
@@ -447,6 +557,9 @@ class C15(Prop):
                                               c.get("usfx", 0), c.get("unit") or "-", " ".join(toks))
         if c["k"] == "Q":
             return "Q " + c["q"]
+        if c["k"] == "W":
+            toks = [("A" + o[1]) if o[0] == "A" else ("S%d" % o[1]) if o[0] == "S" else "P" for o in c["ops"]]
+            return "W %d %d %d | %s" % (c["regime"], c["n"], c["dur"], " ".join(toks))
         toks = [("A%d:%s" % (o[1], o[2])) if o[0] == "A" else ("P%d" % o[1]) for o in c["ops"]]
         if c["k"] == "V":
             return "V %d %d | %s" % (c["n"], c["dur"], " ".join(toks))
@@ -475,8 +588,11 @@ class C15(Prop):
             v, l, fc, fd = line.split()
             un = lambda h: "" if h == "-" else bytes.fromhex(h).decode("utf-8")
             return dict(v=v, label=un(l), fc=un(fc), fd=un(fd))
-        outs = []
+        outs, real_ms = [], []
         for t in line.split():
+            if "@" in t:
+                t, ms = t.rsplit("@", 1)
+                real_ms.append(int(ms))
             if t == "k":
                 outs.append(["k"])
             elif t[0] == "r":
@@ -487,6 +603,8 @@ class C15(Prop):
             else:
                 _, cnt, sm, sc, mn, mx, qs = t.split(":")
                 outs.append(["p", int(cnt), sm, int(sc), mn, mx, qs.split(",")])
+        if c["k"] == "W":
+            return dict(outs=outs, real_ms=real_ms)
         return dict(outs=outs)
 
     # ------------------------------------------------------------------ Coq side
@@ -501,7 +619,8 @@ class C15(Prop):
                                                        cq_opt(None if c.get("unit") is None else cq_str(c["unit"])))
         if c["k"] == "Q":
             return "(cquant %s %s %s)" % (cq_f(c["q"]), cq_str(c["fc"]), cq_str(c["fd"]))
-        ops = [("radd %s %s" % (cq_N(o[1]), cq_f(o[2]))) if o[0] == "A" else ("rsnap %s" % cq_N(o[1])) for o in c["ops"]]
+        rops = self.nominal_ops(c) if c["k"] == "W" else c["ops"]
+        ops = [("radd %s %s" % (cq_N(o[1]), cq_f(o[2]))) if o[0] == "A" else ("rsnap %s" % cq_N(o[1])) for o in rops]
         return "(croll %s %s %s)" % (cq_N(c["n"]), cq_N(c["dur"]), cq_list(ops))
 
     def coq_out(self, c, o):
@@ -559,7 +678,7 @@ class C15(Prop):
             for i, (k, p, b) in enumerate(ovs):
                 for j in range(len(p)):
                     cands.append(dict(c, ovs=ovs[:i] + [[k, p[:j] + p[j + 1:], b]] + ovs[i + 1:]))
-        elif c["k"] == "Q":
+        elif c["k"] in ("Q", "W"):
             pass
         else:
             ops = c["ops"]
